@@ -84,7 +84,10 @@ def r1(ctx, R):
     R.fn(w)
     for a in declared:
         if a in rebound:
-            R.ok(f'Level.reset_level :: rebinds {a}', w, found='fresh list of None / None')
+            # a reset level is a fresh level: the slot gets the expression the constructor gives it (M+1 entries for u/uold/f/fold, M for tau)
+            iv = [ast.unparse(s.value) for s in walk_no_nested(init) if isinstance(s, ast.AnnAssign) and ast.unparse(s.target) == f'self.{a}']
+            rv = [ast.unparse(s.value) for s in walk_no_nested(reset) if isinstance(s, ast.Assign) and any(ast.unparse(t) == f'self.{a}' for t in s.targets)]
+            R.check(len(rv) == 1 and rv == iv[-1:], f'Level.reset_level :: rebinds {a}', w, f'self.{a} = {iv[-1] if iv else "?"} (as in Level.__init__)', rv)
         elif a in LEVEL_SLOT_EXC:
             R.exc(f'Level.reset_level :: does not rebind {a}', w, LEVEL_SLOT_EXC[a])
         else:
